@@ -863,6 +863,12 @@ fn facts(j: &Job, sf: Option<&SynthFont>, mapped: &[(u16, Vec<char>)], infos: &[
     if sf.name.starts_with("edge-emptycov") {
         hit("empty_coverage_font_shaped");
     }
+    if sf.name == "marklig-shortarray" && shape_err {
+        hit("marklig_array_short_err");
+    }
+    if sf.name == "frac-ccmp" && j.feat == 7 && infos.is_empty() && !mapped.is_empty() {
+        hit("custom_fina_on_emptied_run");
+    }
     if sf.name == "edge-badlangsys" && shape_err {
         hit("bad_langsys_err");
     }
